@@ -32,6 +32,7 @@ const (
 	halfModule  = "halfmod"  // test double: a module that registered only a response callback
 	modSvcOwner = "verifsvc" // test double: a module that reserves a service name
 	modSvcName  = "modsvc"   // name of the module-reserved service
+	modSvcName2 = "modsvcb"  // a second reserved name (its binding is never installed)
 	startHeight = int64(10)
 )
 
@@ -138,6 +139,15 @@ func NewApp() *App {
 			return `{"code":200,"message":""}`, `{"header":{},"body":{"rate":"1.0"}}`
 		},
 	}))
+	// a second module reserves another name: with two entries the keeper's by-name lookup has
+	// something to get wrong
+	must(a.k.RegisterModuleService(modSvcOwner+"2", &types.ModuleService{
+		ServiceName: modSvcName2,
+		Provider:    sdk.AccAddress(sha256Sum("modsvc2-provider")[:20]),
+		ReuquestService: func(ctx sdk.Context, input string) (string, string) {
+			return `{"code":200,"message":""}`, `{"header":{},"body":{}}`
+		},
+	}))
 	return a
 }
 
@@ -167,6 +177,7 @@ type World struct {
 	stateCbKill       bool // the verifmod double kills a context from inside its state callback
 	viaApp            bool // end-of-block through the application's module manager
 	stateCbKillOthers bool // the double also kills its other contexts from inside the state callback
+	hostileHashes     bool // some transactions get structured hashes
 
 	tracked    map[string]string // addr hex -> name, accounts whose balance is observed
 	trackedOrd []string
@@ -329,6 +340,8 @@ func panicSite(stack string) string {
 func panicClass(v interface{}) string {
 	s := fmt.Sprint(v)
 	switch {
+	case strings.Contains(s, "before 0001-01-01") || strings.Contains(s, "after 10000-01-01"):
+		return "timestamp-out-of-range"
 	case strings.Contains(s, "index out of range"):
 		return "index-out-of-range"
 	case strings.Contains(s, "nil pointer"):
@@ -378,6 +391,26 @@ func (w *World) DeliverMsgTx(msg sdk.Msg, sameTx bool) (res StepResult) {
 		msgIdx = w.lastIdx + 1
 	} else {
 		txHash = w.nextTxHash()
+		if w.hostileHashes && w.txSeq%5 == 0 {
+			// hashes with structure: starting with a near-future height in big-endian, with a
+			// store prefix byte repeated, all zero / all 0xff except a counter
+			switch (w.txSeq / 5) % 4 {
+			case 0:
+				binary.BigEndian.PutUint64(txHash[:8], uint64(w.height+int64(w.txSeq/20%4)))
+			case 1:
+				for i := 0; i < 12; i++ {
+					txHash[i] = []byte{0x13, 0x15, 0x08, 0x00}[(w.txSeq/20)%4]
+				}
+			case 2:
+				for i := 0; i < 24; i++ {
+					txHash[i] = 0x00
+				}
+			case 3:
+				for i := 0; i < 24; i++ {
+					txHash[i] = 0xff
+				}
+			}
+		}
 	}
 	w.lastTx, w.lastIdx = append([]byte(nil), txHash...), msgIdx
 	cctx, write := w.curCtx().CacheContext()
